@@ -46,6 +46,10 @@ def check_snapshot(snap):
         best = max(post, key=lambda c: c[1])
         raise Violation("snapshot.order", f"column {i} (width {W}, round {now}): postponed candidate {best[0]} ({best[1]}) is more "
                                           f"probable than expanded candidate {worst[0]} ({worst[1]})")
+    if live and post and max(c[1] for c in post) == min(c[1] for c in live):
+        tie = max(post, key=lambda c: c[1])
+        raise Violation("snapshot.tie", f"column {i} (width {W}, round {now}): candidate {tie[0]} is postponed although it is exactly as "
+                                        f"probable ({tie[1]}) as an expanded one (exact ties must be expanded together)")
     srt = sorted((c[1] for c in col), reverse=True)
     if W is not None and len(col) > W:
         thr = srt[W - 1]
@@ -82,6 +86,10 @@ def check_layers(matcher, what):
                 if best.logprob > worst.logprob:
                     raise Violation("layer.order", f"{what}: column {i} depth {depth} (width {W}): postponed candidate {best.key} "
                                                    f"({best.logprob}) is more probable than expanded candidate {worst.key} ({worst.logprob})")
+                if best.logprob == worst.logprob:
+                    raise Violation("layer.tie", f"{what}: column {i} depth {depth} (width {W}): candidate {best.key} is postponed although "
+                                                 f"it is exactly as probable ({best.logprob}) as the expanded candidate {worst.key} "
+                                                 f"(exact ties must be treated alike, otherwise the result depends on listing order)")
             if W is not None and len(ents) > W:
                 srt = sorted((m.logprob for m in ents), reverse=True)
                 allowed = sum(1 for v in srt if v >= srt[W - 1])
@@ -177,7 +185,10 @@ def check_case(case, ctx):
 def strategy(tier):
     @st.composite
     def _s(draw):
-        case = draw(common.mixed_case(tier, ne_share=3, min_len=2, config_kw={"width": None}))
+        if draw(st.integers(0, 7)) == 0:
+            case = draw(gen.fork_case())
+        else:
+            case = draw(common.mixed_case(tier, ne_share=3, min_len=2, config_kw={"width": None}))
         w0 = draw(st.integers(1, 4))
         widths = [w0]
         for _ in range(draw(st.integers(0, 3))):
